@@ -93,6 +93,21 @@ def body(run):
         total["lines"] += v.lines
         total["accepted"] += v.accepted_lines
         samples += [json.loads(x) for x in lines[:6]]
+    # read time-outs between packets while the sender is busy: the gaps (and the time-outs that expire in them) must not
+    # touch the other direction - a sender blocked in a write stays in it. Scheduled runs of the whole client, validated
+    # against QueryLifecycle.tla (a time-out is a stuttering step there).
+    import ql as Q
+    drv1 = V.go_build(PID, "drv")
+    scs = []
+    for scn, kw in (("insert", {"init_rows": 1}), ("stream", {"plan": [Q.Pl("append", "nil"), Q.Pl("reset", "eof")], "init_rows": 1})):
+        for pre in ("", "S", "SS", "SSVR"):
+            for gaps in ("RTRTRT", "RTVRTRT", "TRTVVRRTRT"):
+                scs.append(Q.scenario("c08q-%d" % (len(scs) + 1), Q.cfg(scn, Q.S("hdr", "prog", "eos"), **kw), sched=pre + "Z" + "S" * 6 + gaps + "SS" + "C",
+                                      compression=["disabled", "lz4"][len(scs) % 2]))
+    qlines, qstats, qv = Q.check_and_report(run, PID, drv1, scs, "c08q", keyprefix="gap:")
+    total["lines"] += qv.lines
+    total["accepted"] += qv.accepted_lines
+    plans["gaps-while-sending"] = len(scs)
     if plans.get("two", 0) < 500 or plans.get("bytes", 0) < 20 or plans.get("timeouts-injected", 0) < 50 or plans.get("mask", 0) < 100:
         raise V.Inconclusive("vacuous: %s" % plans)
     run.coverage.update({"states": r.distinct, "transitions": r.generated, "traces_validated_against_impl": total["runs"],
